@@ -537,6 +537,73 @@ def mapped_branch_renames(ctx):
     ctx.case({"directed": "mapped-branch-renames"}, True)
 
 
+def remap_and_many_items(ctx):
+    """Directed. (1) A mapping node that has already RUN, from which another mapping node is derived with map_over over a
+    different parameter set (more, fewer, other parameters; zip and product): the derived node maps over ITS parameters.
+    (2) runner.map over eleven to thirteen combinations with and without a concurrency limit: results stay in input
+    order beyond the tenth item."""
+    import asyncio
+    import itertools
+
+    from hypergraph import AsyncRunner, FunctionNode, Graph, SyncRunner
+
+    def f(a, b, c="c0"):
+        return (a, b, c)
+
+    inner = Graph([FunctionNode(f, name="f", output_name="o")], name="inner")
+    A, B = [1, 2, 3], [10, 20]
+    for runner_kind in ("sync", "async"):
+        def run(g, vals):
+            return SyncRunner().run(g, vals) if runner_kind == "sync" else asyncio.run(AsyncRunner().run(g, vals))
+
+        first = inner.as_node().map_over("a")
+        r0 = run(Graph([first], name="g0"), {"a": A, "b": 7})
+        ctx.obs["map_calls"] += 1
+        if r0.values.get("o") != [(x, 7, "c0") for x in A]:
+            ctx.violation("C10:node-column:entries", f"{runner_kind}: map_over('a'): {r0.values.get('o')!r}", {"form": "remap after run", "runner": runner_kind})
+        derived = [
+            ("b", "zip", first.map_over("b"), {"a": 5, "b": B}, [(5, y, "c0") for y in B]),
+            ("a,b zip", "zip", first.map_over("a", "b"), {"a": A[:2], "b": B}, [(x, y, "c0") for x, y in zip(A[:2], B)]),
+            ("b,a product", "product", first.map_over("b", "a", mode="product"), {"a": A, "b": B}, [(x, y, "c0") for y, x in itertools.product(B, A)]),
+            ("renamed then b", "zip", first.with_inputs(a="a2").map_over("b"), {"a2": 5, "b": B}, [(5, y, "c0") for y in B]),
+        ]
+        for label, mode, nd, vals, exp in derived:
+            try:
+                r = run(Graph([nd], name="g1"), vals)
+                got = r.values.get("o")
+            except Exception as e:  # noqa: BLE001
+                got = f"raised {e!r}"
+            ctx.obs["map_calls"] += 1
+            ctx.obs["remap_after_run_checks"] += 1
+            ctx.obs["items_compared"] += len(exp)
+            if got != exp:
+                ctx.violation("C10:node-column:entries", f"{runner_kind}: a mapping node derived AFTER its parent had run, map_over({label}): {core.short(got, 300)}; one entry per combination of its own parameters gives {core.short(exp, 300)}", {"form": "remap after run", "derived": label, "runner": runner_kind})
+    # (2) more than ten combinations
+    def g(x, y=0):
+        return (x, y)
+
+    gg = Graph([FunctionNode(g, name="g", output_name="o")], name="many")
+    for n_items in (11, 13):
+        xs = list(range(n_items))
+        exp = [{"o": (x, 0)} for x in xs]
+        outs = {"sync": [r.values for r in SyncRunner().map(gg, {"x": xs}, map_over="x")]}
+        for k in (None, 1, 2, 4):
+            outs[f"async-k{k}"] = [r.values for r in asyncio.run(AsyncRunner().map(gg, {"x": xs}, map_over="x", max_concurrency=k))]
+        xs2, ys2 = list(range(4)), list(range(3))
+        for label, got in outs.items():
+            ctx.obs["map_calls"] += 1
+            ctx.obs["items_compared"] += n_items
+            if got != exp:
+                ctx.violation("C10:map-order", f"{label}: runner.map over {n_items} items returned them as {[v['o'][0] for v in got][:14]}", {"form": "many items", "n": n_items, "variant": label})
+        expp = [{"o": (x, y)} for x, y in itertools.product(xs2, ys2)]
+        for k in (None, 2):
+            got = [r.values for r in asyncio.run(AsyncRunner().map(gg, {"x": xs2, "y": ys2}, map_over=["x", "y"], map_mode="product", max_concurrency=k))]
+            ctx.obs["map_calls"] += 1
+            if got != expp:
+                ctx.violation("C10:map-order", f"async-k{k}: product map over 4x3 combinations returned {[v['o'] for v in got]}", {"form": "many items (product)", "variant": f"async-k{k}"})
+    ctx.case({"directed": "remap-and-many-items"}, True)
+
+
 def run(ctx):
     n = 500 if ctx.tier == "quick" else 9000
     core.WARM_P = 0.0
@@ -545,6 +612,7 @@ def run(ctx):
         return
     if ctx.shard[0] == 0:
         mapped_branch_renames(ctx)
+        remap_and_many_items(ctx)
     for i in range(n):
         r = i % 5
         if r in (0, 1):
